@@ -31,7 +31,8 @@ CONSTANTS Iter,        \* iterator objects
           Deviations   \* named wrong behaviours (non-vacuity; formal description of the findings)
 VARIABLES ens,   \* [made, na, nb, C, Q, W, S]   S = [made, C, Q, W]: the arrays of the ensemble this one was
                  \*                              copy-constructed from (that object stays alive and is observed)
-          its,   \* [Iter -> [pos : -1..MaxConf, seen : Seq(Nat)]]   pos = -1: no such iterator
+          its,   \* [Iter -> [pos : -1..MaxConf, seen : Seq(Nat), views : Seq(Nat)]]   pos = -1: no such iterator;
+                 \* views[j] = the row that the conformer yielded at step j (kept by the caller) shows now
           nt,    \* row mutations so far
           last   \* observation: the call just made, its arguments and outcome (not part of the VIEW)
 vars == <<ens, its, nt, last>>
@@ -41,7 +42,7 @@ On(g)   == g \in Ops
 W1      == 1000
 NoSrc   == [made |-> FALSE, C |-> <<>>, Q |-> <<>>, W |-> <<>>]
 NoEns   == [made |-> FALSE, na |-> 0, nb |-> 0, C |-> <<>>, Q |-> <<>>, W |-> <<>>, S |-> NoSrc]
-NoIt    == [pos |-> -1, seen |-> <<>>]
+NoIt    == [pos |-> -1, seen |-> <<>>, views |-> <<>>]
 Ones(n)  == [i \in 1..n |-> W1]
 Zeros(n) == [i \in 1..n |-> 0]
 N       == Len(ens.C)
@@ -215,7 +216,7 @@ SrcTranslate(v) == /\ On("copy") /\ ens.made /\ ens.S.made /\ Mut      \* src.tr
 Started == {it \in Iter : its[it].pos >= 0}
 StartIter(it) ==
   /\ On("iter") /\ ens.made /\ UNCHANGED <<ens, nt>>
-  /\ its' = [x \in Iter |-> IF x = it THEN [pos |-> 0, seen |-> <<>>]
+  /\ its' = [x \in Iter |-> IF x = it THEN [pos |-> 0, seen |-> <<>>, views |-> <<>>]
                             ELSE IF "SharedCursor" \in Deviations /\ x \in Started THEN [its[x] EXCEPT !.pos = 0]
                             ELSE its[x]]
   /\ Note([act |-> "start", it |-> it], "ok")
@@ -224,11 +225,32 @@ NextIt(it) ==
   LET a == [act |-> "next", it |-> it]  p == its[it].pos IN
   /\ On("iter") /\ ens.made /\ p >= 0 /\ UNCHANGED <<ens, nt>>
   /\ IF p < N
-       THEN /\ its' = [x \in Iter |-> IF x = it THEN [pos |-> p + 1, seen |-> Append(its[it].seen, p)]
+       THEN /\ its' = [x \in Iter |-> IF x = it THEN [pos |-> p + 1, seen |-> Append(its[it].seen, p),
+                                                                views |-> IF "YieldReusesView" \in Deviations
+                                                                            THEN [j \in 1..(Len(its[it].views) + 1) |-> p + 1]
+                                                                            ELSE Append(its[it].views, p + 1)]
                                       ELSE IF "SharedCursor" \in Deviations /\ x \in Started THEN [its[x] EXCEPT !.pos = p + 1]
                                       ELSE its[x]]
             /\ last' = a @@ [out |-> "ok", val |-> RowVal(p + 1)]
        ELSE UNCHANGED its /\ Note(a, "stop")
+
+(* list(ens) / a collected generator: a fresh iteration run to its end, every      *)
+(* yielded conformer kept                                                           *)
+Collect(it) ==
+  /\ On("iter") /\ ens.made /\ UNCHANGED <<ens, nt>>
+  /\ its' = [its EXCEPT ![it] = [pos |-> N, seen |-> [k \in 1..N |-> k - 1],
+                                 views |-> IF "YieldReusesView" \in Deviations THEN [k \in 1..N |-> N] ELSE [k \in 1..N |-> k]]]
+  /\ last' = [act |-> "collect", it |-> it, out |-> "ok", val |-> [k \in 1..N |-> RowVal(k)]]
+(* a conformer kept from step j of iteration `it` is still a view of the row it was *)
+(* yielded for - also after the iterator moved on or ended: writes reach that row   *)
+HeldWrite(it, j, row) ==                             \* kept[it][j].coords = row
+  /\ On("iter") /\ ens.made /\ j \in 1..Len(its[it].views) /\ Len(row) = ens.na /\ Mut
+  /\ ens' = [ens EXCEPT !.C[its[it].views[j]] = row]
+  /\ Note([act |-> "hwc", it |-> it, j |-> j, row |-> row], "ok")
+HeldWriteQ(it, j, qrow) ==                           \* kept[it][j].atomic_charges = qrow
+  /\ On("iter") /\ ens.made /\ j \in 1..Len(its[it].views) /\ Len(qrow) = ens.na /\ Mut
+  /\ ens' = [ens EXCEPT !.Q[its[it].views[j]] = qrow]
+  /\ Note([act |-> "hwq", it |-> it, j |-> j, row |-> qrow], "ok")
 
 (* ---- reading operations: dump, serialise, slice -------------------------- *)
 (* the ensemble writers iterate over the ensemble themselves                   *)
@@ -305,6 +327,9 @@ Next ==
   \/ \E i \in ConfIdx, w \in WPool : SetW(i, w)
   \/ \E it \in Iter : StartIter(it)
   \/ \E it \in Iter : NextIt(it)
+  \/ \E it \in Iter : Collect(it)
+  \/ \E it \in Iter, j \in ConfIdx, m \in PoolSet : HeldWrite(it, j, m.g)
+  \/ \E it \in Iter, j \in ConfIdx, m \in PoolSet : HeldWriteQ(it, j, Q2(m.q))
   \/ \E fmt \in {"xyz", "mol2"} : Dump(fmt)
   \/ \E fmt \in {"xyz", "mol2"}, i \in ConfIdx : CDump(i, fmt)
   \/ Ser
@@ -319,6 +344,8 @@ Spec == Init /\ [][Next]_vars
 Obs == [made |-> ens.made, na |-> ens.na, nb |-> ens.nb,
         shC |-> <<Len(ens.C), ens.na, 3>>, shQ |-> <<Len(ens.Q), ens.na>>, shW |-> <<Len(ens.W)>>,
         C |-> ens.C, Q |-> ens.Q, W |-> ens.W, src |-> ens.S,
+        held |-> [it \in Iter |-> [j \in 1..Len(its[it].views) |->
+                     IF its[it].views[j] <= Len(ens.C) THEN RowVal(its[it].views[j]) ELSE [c |-> <<>>, q |-> <<>>]]],
         v |-> [i \in 1..Len(ens.C) |-> [c |-> ens.C[i], q |-> IF i <= Len(ens.Q) THEN ens.Q[i] ELSE <<>>,
                                         na |-> ens.na, nb |-> ens.nb]]]
 
@@ -330,6 +357,14 @@ Rectangular == ens.made => Rect(ens)
 EachOnceInOrder == \A it \in Iter : its[it].pos >= 0 =>
                       /\ its[it].pos <= N
                       /\ its[it].seen = [k \in 1..its[it].pos |-> k - 1]
+(* a conformer yielded for row i stays a view of row i                            *)
+YieldedViewsStay == \A it \in Iter : its[it].views = [j \in 1..Len(its[it].seen) |-> its[it].seen[j] + 1]
+HeldWriteThrough ==
+  [][last'.act \in {"hwc", "hwq"} =>
+        LET r == its[last'.it].seen[last'.j] + 1 IN
+        /\ last'.out = "ok" /\ ens'.W = ens.W /\ Len(ens'.C) = N
+        /\ (last'.act = "hwc" => ens'.C[r] = last'.row /\ ens'.Q = ens.Q /\ \A k \in 1..N : k # r => ens'.C[k] = ens.C[k])
+        /\ (last'.act = "hwq" => ens'.Q[r] = last'.row /\ ens'.C = ens.C /\ \A k \in 1..N : k # r => ens'.Q[k] = ens.Q[k])]_vars
 StopOnlyAtEnd == [][(last'.act = "next" /\ last'.out = "stop") => Len(its[last'.it].seen) = N]_vars
 YieldsTheRow  == [][(last'.act = "next" /\ last'.out = "ok") =>
                       last'.val = RowVal(Len(its[last'.it].seen) + 1)]_vars
@@ -366,7 +401,7 @@ CopyIsFaithful == [][last'.act = "newcopy" => ens' = [ens EXCEPT !.S = SrcOf(ens
 SourceUntouched == [][last'.act \notin (SrcActs \cup {"newcopy"}) => ens'.S = ens.S]_vars
 CopyUntouched   == [][last'.act \in SrcActs => ens' = [ens EXCEPT !.S = ens'.S]]_vars
 FailedOpIsNoOp == [][last'.out \in {"error", "stop"} => ens' = ens]_vars
-ReadsChangeNothing == [][last'.act \in {"dump", "ser", "cdump", "cser", "slice", "start", "next"} => ens' = ens]_vars
+ReadsChangeNothing == [][last'.act \in {"dump", "ser", "cdump", "cser", "slice", "start", "next", "collect"} => ens' = ens]_vars
 (* every conformer can be written, the ensemble can be written and stored       *)
 DumpableAndStorable == [][last'.act \in {"dump", "ser", "cdump", "cser"} => last'.out = "ok"]_vars
 =============================================================================
